@@ -1,4 +1,4 @@
-"""Observation (reported by the author of seeded change C14-r6s1, confirmed here; NOT covered by a check yet): for d >= 2
+"""Fixed in /repo f27ad99 (reported by the author of seeded change C14-r6s1; covered by the 2-d grid node cells of checks/c14.py): for d >= 2
 GridInterpolationVariationalStrategy lays out its inducing_points with dimension 0 varying FASTEST, while Interpolation.interpolate
 (used by _compute_grid) enumerates the grid with dimension 0 varying SLOWEST.  The interpolation weights of the j-th inducing point
 therefore select another inducing index (grid 6 x 6 on [0,1] x [0,2]: 1 -> 6, 9 -> 19), so the prior p(u) used in the KL (kernel at
